@@ -203,7 +203,11 @@ func runSolvers(res *Result, timeoutS int) *Result {
 	}
 	run := func(ctx context.Context, s solverCfg, t int) ans {
 		t0 := time.Now()
-		argv := s.argv(file, t)
+		// The solver's own limit t is wall-clock; under machine load that would turn a proof into a
+		// timeout. The binding limit is therefore CPU time (ulimit -t), the solver's wall-clock
+		// limit is set 8x higher only as a backstop.
+		argv := s.argv(file, t*8+20)
+		argv = append([]string{"sh", "-c", fmt.Sprintf("ulimit -t %d; exec \"$@\"", t+1), "sh"}, argv...)
 		cmd := exec.CommandContext(ctx, argv[0], argv[1:]...)
 		var buf bytes.Buffer
 		cmd.Stdout = &buf
